@@ -67,16 +67,31 @@ class ArgumentList:
         self.declared_identifiers = set()
         self.undeclared_identifiers = set()
         if isinstance(code, str):
-            if re.match(r"\S", code) and not re.match(r",\s*$", code):
-                # if theres text and no trailing comma, insure its parsed
-                # as a tuple by adding a trailing comma
-                code += ","
-            expr = pyparser.parse(code, "exec", **exception_kwargs)
+            expr = self._parse_list(code, **exception_kwargs)
         else:
             expr = code
 
         f = pyparser.FindTuple(self, PythonCode, **exception_kwargs)
         f.visit(expr)
+
+
+    @staticmethod
+    def _parse_list(code, **exception_kwargs):
+        """parse the text as the elements of a parenthesised tuple, so that
+        the list may span lines, begin with white space, carry a comment or
+        end in a comma"""
+
+        if not code.strip():
+            return pyparser.parse("", "exec", **exception_kwargs)
+        error = None
+        for closing in ("\n,)", "\n)"):
+            try:
+                return pyparser.parse(
+                    "(" + code + closing, "eval", **exception_kwargs
+                )
+            except exceptions.SyntaxException as e:
+                error = error or e
+        raise error
 
 
 class PythonFragment(PythonCode):
